@@ -81,6 +81,11 @@ def tlc(tla, cfg, workers=1, env=None, extra=(), timeout=7200):
     return p.returncode, p.stdout
 
 
+def dbg(msg):
+    if os.environ.get("VERIF_DEBUG"):
+        print(f"[{time.strftime('%H:%M:%S')}] {msg}", file=sys.stderr, flush=True)
+
+
 def mc(module, cfg=None, workers=NCPU, expect_violation=None, timeout=7200):
     """Model-check spec/mc/<module>.tla with spec/mc/<cfg>.cfg.  The model must satisfy every
     listed invariant / property (or, with expect_violation=<name>, must violate that one: used to
@@ -89,6 +94,7 @@ def mc(module, cfg=None, workers=NCPU, expect_violation=None, timeout=7200):
     t0 = time.time()
     rc, out = tlc(os.path.join(SPEC, "mc", module + ".tla"), os.path.join(SPEC, "mc", cfg + ".cfg"),
                   workers=workers, timeout=timeout)
+    dbg(f"mc {cfg} {time.time() - t0:.1f}s")
     m = _RE_STATS.search(out)
     stats = dict(module=module, cfg=cfg, wall_s=round(time.time() - t0, 1))
     if expect_violation:
@@ -183,6 +189,7 @@ def validate(trace_module, events, cfg=None, nchunks=NCPU, timeout=7200):
         with ThreadPoolExecutor(max_workers=NCPU) as ex:
             for vs in ex.map(one, range(len(chunks))):
                 verdicts.extend(vs)
+    dbg(f"validate {trace_module} {len(events)} events {time.time() - t0:.1f}s")
     return verdicts, dict(trace_module=trace_module, events=len(events), chunks=len(chunks),
                           wall_s=round(time.time() - t0, 1))
 
@@ -209,8 +216,20 @@ def pmap(func, items, chunksize=None):
     if chunksize is None:
         chunksize = max(1, min(200, len(items) // (NCPU * 4) + 1))
     ctx = mp.get_context("fork")
+    t0 = time.time()
     with ctx.Pool(NCPU, initializer=_init_worker, initargs=(REPO,)) as pool:
-        return pool.map(func, items, chunksize=chunksize)
+        res = pool.map(func, items, chunksize=chunksize)
+    dbg(f"pmap {getattr(func, '__name__', '?')} {len(items)} items {time.time() - t0:.1f}s")
+    return res
+
+
+def cap(items, n, rng):
+    """At most n items: a seeded sample that keeps order (and renumbers nothing)."""
+    items = list(items)
+    if len(items) <= n:
+        return items
+    keep = set(rng.sample(range(len(items)), n))
+    return [x for i, x in enumerate(items) if i in keep]
 
 
 def exc_name(ex) -> str:
